@@ -134,6 +134,14 @@ func c18parse(ctx context.Context, query string) (wire.PreparedStatements, error
 				}
 			}
 		}
+		// the handler decodes its parameters through the library (after retaining them): reading a value
+		// may not change it nor anything received next to it
+		for _, p := range params {
+			for _, o := range []uint32{uint32(oid.T_timestamptz), uint32(oid.T_timestamp), uint32(oid.T_date), uint32(oid.T_int4), uint32(oid.T_text), uint32(oid.T__text)} {
+				p.Scan(o)
+			}
+		}
+		st.recheck("after the parameters were decoded through Parameter.Scan")
 		if query[0] == 'x' {
 			return errors.New("c18: statement fails after retaining its parameters")
 		}
@@ -284,6 +292,11 @@ func (ch c18) runCase(c *core.Ctx, env *hs.Env, L int, rng *core.Rng, idx int) {
 					sz = budget / 2
 				}
 				budget -= sz
+				if rng.Intn(4) == 0 {
+					// values a decoder may want to complete or normalise (abbreviated dates, padded numbers, arrays)
+					params = append(params, []byte(core.Pick(rng, []string{"2024-01-31", "2024-01-31 10:00:00", "1999-12-31 23:59:59", " 42 ", "{a,b}", "infinity", "t"})))
+					continue
+				}
 				params = append(params, rng.Bytes(sz))
 			}
 			st.binds[tag] = params
